@@ -647,10 +647,159 @@ def check_zero_score(fails):
                 return
 
 
+def check_batch4(fails):
+    """Deterministic families added after the fourth batch of seeded changes.
+    C09/C05 nested boosts: Or([aa^2, bb], boost=3) over 40 documents where bb runs out after 3 (the collector's periodic
+    replace() then rebuilds the wrappers): every hit's score, for every limit, is 3 * (2 * tf(aa) + tf(bb)).
+    C09 fractional weights: documents with _boost=0.5 next to unboosted ones in ONE posting block (block maximum exactly 1.0).
+    C05 n-ary Or with a boost below 1 over 3000 documents whose best hits come last (array union parts skipped by quality).
+    C11 span matchers: stepping with replace(0) after every step yields the same (id, spans) list as plain stepping.
+    C12 two scorable fields with different lengths per document: block_quality() >= score() at every posting and
+    max_quality() >= every remaining score, for every term of every field (BM25F, small blocks)."""
+    import random as _random
+    from whoosh import fields, query, scoring
+    from whoosh.codec.whoosh3 import W3Codec
+    from whoosh.filedb.filestore import RamStorage
+    from whoosh.query import spans as sq
+
+    def F(case, detail):
+        fails.append({"case": case, "detail": detail, "corpus": None})
+
+    # ---- nested boosts across replace()
+    ix = RamStorage().create_index(fields.Schema(k=fields.ID(stored=True), t=fields.TEXT(phrase=False)))
+    w = ix.writer()
+    model = {}
+    for i in range(40):
+        tfa = 1 + (i % 4)
+        tfb = 2 if i < 3 else 0
+        w.add_document(k=u"%d" % i, t=u" ".join(["aa"] * tfa + ["bb"] * tfb))
+        model[str(i)] = 3.0 * (2.0 * tfa + tfb)
+    w.commit()
+    with ix.searcher(weighting=scoring.Frequency()) as s:
+        for mk in (lambda: query.Or([query.Term("t", u"aa", boost=2.0), query.Term("t", u"bb")], boost=3.0),
+                   lambda: query.AndMaybe(query.Term("t", u"aa", boost=2.0), query.Term("t", u"bb"), boost=3.0) if False else
+                   query.Or([query.Term("t", u"aa", boost=2.0), query.Term("t", u"bb")], boost=3.0)):
+            for limit in (None, 12, 25, 39):
+                r = s.search(mk(), limit=limit)
+                bad = [(h["k"], h.score, model[h["k"]]) for h in r if abs(h.score - model[h["k"]]) > 1e-6]
+                if bad:
+                    F("C09-nested-boost-replace", "Or([aa^2, bb], boost=3) limit=%r: (doc, score, expected) %r" % (limit, bad[:4]))
+                    break
+    # ---- fractional weights in a block whose maximum is exactly 1.0
+    ix = RamStorage().create_index(fields.Schema(k=fields.ID(stored=True), t=fields.TEXT(phrase=False)))
+    w = ix.writer()
+    model = {}
+    for i in range(12):
+        b = 0.5 if i % 3 == 1 else (0.25 if i == 6 else 1.0)
+        w.add_document(k=u"%d" % i, t=u"cc dd" if i % 2 else u"cc", _boost=b)
+        model[str(i)] = b
+    w.commit()
+    with ix.searcher(weighting=scoring.Frequency()) as s:
+        got = dict((h["k"], h.score) for h in s.search(query.Term("t", u"cc"), limit=None))
+        bad = [(k_, got.get(k_), v) for k_, v in sorted(model.items()) if got.get(k_) is None or abs(got[k_] - v) > 1e-6]
+        if bad:
+            F("C09-fractional-weight", "term score of documents with _boost < 1 (doc, score, expected): %r" % (bad[:5],))
+    # ---- n-ary Or with a boost in (0, 1), best hits last
+    ix = RamStorage().create_index(fields.Schema(k=fields.ID(stored=True), t=fields.TEXT(phrase=False)))
+    w = ix.writer(limitmb=64)
+    for i in range(3000):
+        words = ["aa"] * (1 + i // 250) + (["bb"] if i % 2 else []) + (["cc"] * 2 if i % 3 == 0 else [])
+        w.add_document(k=u"%d" % i, t=u" ".join(words))
+    w.commit()
+    with ix.searcher(weighting=scoring.Frequency()) as s:
+        for boost in (0.5, 0.1, 1.0, 2.0):
+            q = lambda: query.Or([query.Term("t", u"aa"), query.Term("t", u"bb"), query.Term("t", u"cc")], boost=boost)
+            full = [(h["k"], round(h.score, 6)) for h in s.search(q(), limit=None)]
+            for limit in (1, 5, 40):
+                top = [(h["k"], round(h.score, 6)) for h in s.search(q(), limit=limit)]
+                if top != full[:limit]:
+                    F("C05-or3-fractional-boost", "Or([aa, bb, cc], boost=%r) limit=%d returns %r, exhaustive ranking starts %r"
+                      % (boost, limit, top[:5], full[:5]))
+                    break
+    # ---- span matchers: replace(0) after every step changes nothing
+    ix = RamStorage().create_index(fields.Schema(k=fields.ID(stored=True), t=fields.TEXT))
+    rnd = _random.Random(4)
+    w = ix.writer()
+    for i in range(30):
+        n = rnd.randint(1, 6)
+        words = [rnd.choice(["aa", "bb", "cc", "dd"]) for _ in range(n)]
+        if i > 12:
+            words = [x for x in words if x != "bb"] or ["dd"]      # bb runs out early: the Or below simplifies itself
+        w.add_document(k=u"%d" % i, t=u" ".join(words))
+    w.commit()
+    ta, tb, tc = query.Term("t", u"aa"), query.Term("t", u"bb"), query.Term("t", u"cc")
+    span_kinds = [("spanfirst-or", lambda: sq.SpanFirst(query.Or([ta, tb]), limit=2)),
+                  ("spanfirst", lambda: sq.SpanFirst(ta, limit=1)),
+                  ("spannear-or", lambda: sq.SpanNear(query.Or([ta, tb]), tc, slop=2, ordered=False)),
+                  ("spannot-or", lambda: sq.SpanNot(query.Or([ta, tb]), tc)),
+                  ("spanor", lambda: sq.SpanOr([sq.SpanFirst(ta, limit=1), tb]))]
+    with ix.searcher(weighting=scoring.Frequency()) as s:
+        for name, mk in span_kinds:
+            try:
+                m = mk().matcher(s)
+                plain = []
+                while m.is_active():
+                    plain.append((m.id(), sorted((sp.start, sp.end) for sp in m.spans())))
+                    m.next()
+                m = mk().matcher(s)
+                repl = []
+                while m.is_active():
+                    repl.append((m.id(), sorted((sp.start, sp.end) for sp in m.spans())))
+                    m.next()
+                    m = m.replace(0)
+                if repl != plain:
+                    F("C11-span-replace/" + name, "stepping with replace(0) after every step: %r, plain stepping: %r" % (repl[:8], plain[:8]))
+            except NotImplementedError:
+                pass
+    # ---- two scorable fields: quality bounds per term
+    ix = RamStorage().create_index(fields.Schema(k=fields.ID(stored=True), lbody=fields.TEXT(phrase=False), title=fields.TEXT(phrase=False)))
+    rnd = _random.Random(11)
+    for part in range(2):
+        w = ix.writer(codec=W3Codec(blocklimit=3))
+        for i in range(25):
+            nb = rnd.choice([1, 2, 30, 60, 120])
+            nt = rnd.choice([1, 1, 2, 3])
+            vocab = ["aardvark", "bee", "cat", "zebra"]
+            body = [rnd.choice(vocab) for _ in range(nb)] + (["zebra"] if i % 2 else [])
+            title = [rnd.choice(vocab) for _ in range(nt)]
+            if i % 5 == 0:
+                title = ["aardvark"]
+            w.add_document(k=u"%d-%d" % (part, i), lbody=u" ".join(body), title=u" ".join(title))
+        w.commit(merge=False)
+    # (the ID field k sorts before both text fields, so the title postings directly follow the body postings)
+    # a segment where the first title term starts in the very document the last body term ends in, that document being
+    # long in body and the shortest in title (per-document lengths must be looked up per FIELD)
+    w = ix.writer(codec=W3Codec(blocklimit=3))
+    for i in range(6):
+        w.add_document(k=u"2-%d" % i, lbody=u" ".join(["zebra"] * (3 if i < 5 else 90)),
+                       title=u"bee cat cat cat" if i < 5 else u"aardvark")
+    w.commit(merge=False)
+    for wm in (scoring.BM25F(), scoring.TF_IDF()):
+        with ix.searcher(weighting=wm) as s:
+            for fname in ("lbody", "title"):
+                for word in ("aardvark", "bee", "cat", "zebra"):
+                    for sub, _off in s.leaf_searchers():
+                        m = query.Term(fname, word).matcher(sub)
+                        if not m.is_active() or not m.supports_block_quality():
+                            continue
+                        rows = []
+                        while m.is_active():
+                            rows.append((m.id(), m.score(), m.block_quality(), m.max_quality()))
+                            m.next()
+                        for j, (d, sc, bq, mq) in enumerate(rows):
+                            if bq < sc - 1e-9:
+                                F("C12-two-fields-block-quality", "%s %s:%s doc %d: block_quality %r < score %r" % (type(wm).__name__, fname, word, d, bq, sc))
+                                break
+                            rest = max(r[1] for r in rows[j:])
+                            if mq < rest - 1e-9:
+                                F("C12-two-fields-max-quality", "%s %s:%s at doc %d: max_quality %r < a remaining score %r" % (type(wm).__name__, fname, word, d, mq, rest))
+                                break
+
+
 def main():
     if sys.argv[1] == "--deterministic":
         fails = []
-        for fam in (check_scoring_paths, check_limited_nested, check_coord, check_zero_score):
+        for fam in (check_scoring_paths, check_limited_nested, check_coord, check_zero_score, check_batch4):
             try:
                 fam(fails)
             except Exception as e:
@@ -677,7 +826,7 @@ def main():
     with multiprocessing.get_context("fork").Pool(jobs) as pool:
         outs = pool.map(run, chunks)
     fails = [f for fs, _ in outs for f in fs]
-    for fam in (check_scoring_paths, check_limited_nested, check_coord, check_zero_score):
+    for fam in (check_scoring_paths, check_limited_nested, check_coord, check_zero_score, check_batch4):
         try:
             fam(fails)
         except Exception as e:
